@@ -24,6 +24,7 @@ const (
 	catMeta = srccat.Meta
 )
 
+func catSetPartName(f func(db int64) string)    { srccat.PartName = f }
 func newCatalog() *catalog                      { return srccat.New() }
 func catBuild(hist []catOp) (*catalog, bool)    { return srccat.Build(hist) }
 
